@@ -28,3 +28,21 @@ Theorem C16_typed_query_ignores_history : forall std old d bs ty,
   typed_parse_input std old d bs = recv_into bs d /\
   from_msg (typed_parse_input std old d bs) ty = from_msg (recv_into bs d) ty.
 Proof. intros std old d bs ty H. rewrite (typed_input_ignores_history std old d bs H). split; reflexivity. Qed.
+
+(* The reusable buffer across typed queries ([tq_step], Client.v: `self.buf` as (capacity, len); the
+   refusal test, the growth test, the amount reserved and the lengths handed to set_len are
+   translated leaves of both client families).  From the state Client::new leaves
+   (Vec::with_capacity(buffer_size)) or any later one, for EVERY history of completed, failed and
+   dropped (async: future dropped mid-flight) typed queries, with any allocator slack: no query is
+   refused, the `unsafe set_len` in take_buf and after the raw query is always within the capacity,
+   and the raw query always receives a buffer of exactly the configured size. *)
+Theorem C16_buffer_history_safe : forall std bs, 0 < bs -> forall h st, tq_inv bs st ->
+  Forall (fun se => match snd se with TqDone r => r <= bs | _ => True end) h ->
+  Forall (fun o => o = TqRan bs) (tq_run std bs st h).
+Proof. exact tq_history_safe. Qed.
+
+Example C16_buffer_history_example :
+  tq_inv 65535 (65535, 0) /\
+  tq_run false 65535 (65535, 0) [(0, TqDone 120); (7, TqDropped); (0, TqDone 300); (3, TqFailed); (0, TqDropped); (1, TqDone 65535)] =
+  [TqRan 65535; TqRan 65535; TqRan 65535; TqRan 65535; TqRan 65535; TqRan 65535].
+Proof. split; [apply tq_inv_new; reflexivity|vm_compute; reflexivity]. Qed.
